@@ -52,7 +52,7 @@ _state = {"gai": False, "guard": False, "rx": False}
 _real_getaddrinfo = socket.getaddrinfo
 
 
-def _safe_getaddrinfo(host, *pa, **kwa):
+def getaddrinfo(host, *pa, **kwa):   # named like the real one: it shows up as the primitive in escape keys
     if isinstance(host, (bytes, bytearray)):
         host = bytes(host).decode("ascii", "replace")
     if isinstance(host, str) and host not in ("", "localhost"):
@@ -84,7 +84,7 @@ class _SocketModuleProxy:
 def install_shims():
     """resolver never touches DNS; hio tcp clients can only reach ALLOWED_PORTS on 127.0.0.1; receive counters."""
     if not _state["gai"]:
-        socket.getaddrinfo = _safe_getaddrinfo
+        socket.getaddrinfo = getaddrinfo
         _state["gai"] = True
     if not _state["guard"]:
         tcpclienting.socket = _SocketModuleProxy()
@@ -95,20 +95,29 @@ def install_shims():
         _state["rx"] = True
 
 
+RX = {}    # bytes hio has received, keyed by the hio endpoint's .ca (server side: the peer's address; client side: its own)
+
+
 def _wrap_receive(cls):
     orig = cls.receive
 
     def receive(self):
         data = orig(self)
         if data:
-            self.__dict__["_vf_rx"] = self.__dict__.get("_vf_rx", 0) + len(data)
+            RX[self.ca] = RX.get(self.ca, 0) + len(data)
         return data
     receive.__wrapped__ = orig
     cls.receive = receive
 
 
-def rx_count(obj):
-    return getattr(obj, "_vf_rx", 0) if obj is not None else 0
+def rx_count(ca):
+    """bytes the hio endpoint with connection address `ca` has taken from its socket in this case (cleared by new_case)"""
+    return RX.get(tuple(ca), 0) if ca else 0
+
+
+def new_case():
+    RX.clear()
+    ALLOWED_PORTS.clear()
 
 
 # ---- hio endpoints -------------------------------------------------------------
@@ -173,6 +182,10 @@ class Raw:
         self.want_shut = False  # half-close once pending is flushed
         self.shut = False
         self.name = self.s.getsockname()
+        try:
+            self.peer = self.s.getpeername()
+        except OSError:
+            self.peer = None
 
     @classmethod
     def connect(cls, port):
@@ -226,6 +239,8 @@ class Raw:
                 break
             self.rx.extend(data)
             moved = True
+        if self.eof and self.pending:
+            self.pending.clear()     # the peer is gone: what was not sent yet can never be delivered
         return moved
 
     def close(self):
@@ -240,9 +255,10 @@ class Raw:
             pass
 
 
-def idle_wait(socks, idle_rounds):
-    """Nothing moved this round: let the kernel finish loopback delivery. Not a decision, only a yield."""
-    t = 0.0005 if idle_rounds < 8 else (0.003 if idle_rounds < 24 else 0.02)
+def idle_wait(socks, idle_rounds, grace=False):
+    """Nothing moved this round: let the kernel finish loopback delivery. Not a decision, only a yield.
+    grace=True is used in the extra rounds a case gets before anything that depends on delivery is reported."""
+    t = 0.1 if grace else (0.0005 if idle_rounds < 8 else (0.003 if idle_rounds < 24 else 0.02))
     rl = [s for s in socks if s is not None]
     try:
         if rl:
